@@ -169,16 +169,18 @@ class BaseDriver:
         # user provided arguments, defaults to None to not be mutable argument, so if its still
         # None at this point turn it into an empty dict to pass into the transports
         transport_options = transport_options or {}
+
+        # validate/strip the host first so that the transport dials the same host the driver reports
+        self.host, self.port = self._setup_host(host=host, port=port)
+
         self._base_transport_args = BaseTransportArgs(
             transport_options=transport_options,
-            host=host,
+            host=self.host,
             port=port,
             timeout_socket=timeout_socket,
             timeout_transport=timeout_transport,
             logging_uid=logging_uid,
         )
-
-        self.host, self.port = self._setup_host(host=host, port=port)
 
         self.auth_username = auth_username
         self.auth_password = auth_password
